@@ -11,7 +11,8 @@ def main(tier, replay=None):
     sc = S.SystemCheck(PID, tier)
     q = tier == "quick"
     for (n, w, s) in ([(3, 1, 3), (3, 2, 2), (3, 2, 4), (4, 3, 3)] if q else [(3, 1, 1), (3, 1, 4), (3, 2, 2), (3, 2, 3), (3, 2, 4), (4, 3, 3), (4, 3, 4), (4, 2, 4)]):
-        S.model_check(sc.chk, sc.work, f"N{n}W{w}S{s}", {"N": n, "Workers": w, "Steps": s, "MaxPn": n + 2 * s + 2}, INV, [], timeout=3000)
+        S.model_check(sc.chk, sc.work, f"N{n}W{w}S{s}", {"N": n, "Workers": w, "Steps": s, "MaxPn": n + 2 * s + 2}, INV, [], timeout=3000,
+                      required=("InitPick", "Complete", "Finish") + (("LoopPick",) if s > w else ()))
     S.model_check(sc.chk, sc.work, "N3W2S3_more", {"N": 3, "Workers": 2, "Steps": 3, "MaxRestarts": 1, "MoreSteps": 1, "MaxPn": 11}, INV, [],
                   required=("InitPick", "LoopPick", "Complete", "Finish", "Kill", "Restart"))
     sc.replay_behaviours("N3W2S4_more", {"N": 3, "Workers": 2, "Steps": 4, "MaxPn": 14, "MaxRestarts": 2, "MoreSteps": 2}, 120 if q else 1200, 24)
